@@ -108,7 +108,7 @@ def slot_hits(slots, body, places):
 
 def infer_sites(prog, slots):
     for b in prog.bodies.values():
-        if b.short.split("::")[0] in SKIP_CRATES:
+        if b.crate in SKIP_CRATES:
             continue
         for i, t in b.calls():
             n = callee(t)
@@ -154,7 +154,7 @@ def run(ctx):
     for b in sorted(prog.bodies.values(), key=lambda x: x.id):
         if b.kind not in ("fn", "assoc_fn", "closure"):
             continue
-        if b.short.split("::")[0] in SKIP_CRATES:
+        if b.crate in SKIP_CRATES:
             continue
         cx = [i for i in range(1, b.argc + 1) if "core::task::wake::Context" in b.local_ty(i)]
         if not cx:
@@ -178,7 +178,7 @@ def run(ctx):
                "Poll::Pending built at %s; blocks using the Context: %s — a Pending returned on a path that never touched "
                "the context leaves no waker behind: the task sleeps forever even after the condition becomes true"
                % (["bb%d" % x for x in pend], sorted(reg)[:8]))
-    ctx.floor("W1", "hand-written poll functions returning Pending", n_poll, 46)
+    ctx.floor("W1", "hand-written poll functions returning Pending", n_poll, 44)
 
     # ---------------------------------------------------------------- W2 / W7
     slots = discover_slots(prog)
@@ -257,7 +257,7 @@ def run(ctx):
     # ---------------------------------------------------------------- W5
     n5 = 0
     for b in sorted(prog.bodies.values(), key=lambda x: x.id):
-        if b.short.split("::")[0] in SKIP_CRATES or b.kind not in ("fn", "assoc_fn"):
+        if b.crate in SKIP_CRATES or b.kind not in ("fn", "assoc_fn"):
             continue
         self_adt = b.get("self_adt")
         if not self_adt:
@@ -288,7 +288,7 @@ def run(ctx):
     # ---------------------------------------------------------------- W6
     n6 = 0
     for b in sorted(prog.bodies.values(), key=lambda x: x.id):
-        if b.short.split("::")[0] in SKIP_CRATES or b.kind not in ("fn", "assoc_fn"):
+        if b.crate in SKIP_CRATES or b.kind not in ("fn", "assoc_fn"):
             continue
         wk = call_blocks(b, r"net::tx::ArcSendWaker::wake_by$|net::tx::ArcSendWakers::wake_all_by$")
         if not wk:
